@@ -1,0 +1,16 @@
+//go:build verif
+
+// Contracts for contract-based deductive verification (see /verif/DESIGN.md).
+// Comment-only file: it contributes no code to any build.
+
+package errors
+
+// thin wrappers of fmt.Errorf / errors.New: they always return an error value
+//@ func Errorf
+//@   props C11 C12 C15
+//@   modifies nothing
+//@   ensures result != nil
+//@ func New
+//@   props C11 C12 C15
+//@   modifies nothing
+//@   ensures result != nil
